@@ -452,6 +452,9 @@ def run(ctx):
     # ---- values returned by a pool-mapped likelihood / prior belong to the rows they were computed for
     reuse(ctx, c10.pool_rule, ("C10.pool",), "C02pool", "pool rule shared with C10: with an unordered map the log-likelihood stored in row i is that of another sample, so log_w[i] is not L + P - Q of sample i")
     # ---- the same functional on SMC populations: the step's evidence ratio is the log of the mean incremental weight
+    from . import c11 as _c11
+    reuse(ctx, _c11.run, ("C11.snapshot",), "C02ckpt", "snapshot rule shared with C11: the SMC log-evidence is the sum of the recorded ratios; a checkpoint that shares the live series with the running "
+          "sampler makes a run resumed from it add the ratios of the iterations it repeats a second time")
     reuse(ctx, c08.run, ("C08.ratio", "C08.var", "C08.sum"), "C02smc", "identity shared with C08: log of the mean (incremental) weight over all N particles, summed over the steps of this run only "
           "(a constant added to the log-likelihood then shifts the reported log-evidence by exactly that constant)")
 
@@ -623,4 +626,8 @@ ANCHORS = [
     'aspire.samples:Samples.rejection_sample',
     'aspire.utils:logsumexp',
     'aspire.utils:effective_sample_size',
+]
+
+MUTANTS += [
+    M("checkpoint holds a shallow copy of the history", "src/aspire/samplers/smc/base.py", "copy.deepcopy(self.history)", "copy.copy(self.history)", "C02ckpt.snapshot", within="SMCSampler._checkpoint_extra_state"),
 ]
